@@ -505,3 +505,24 @@ func VerifRefClass(rs, src []*NetworkRule) int { return verifRefClass(rs, src) }
 
 // VerifVerdict: 0 none, 1 block, 2 allow.
 func VerifVerdict(r *NetworkRule) int { return verifVerdict(r) }
+
+// VerifPlainRule: a symbolic rule without $dnsrewrite (no fork at construction).
+func VerifPlainRule(p string) *NetworkRule {
+	r := verifSmallRule(p)
+	return verifRealize(r, r.pattern)
+}
+
+// VerifTextWithPattern renders a (parsed or field-level) rule as text with another pattern.
+func VerifTextWithPattern(r *NetworkRule, pattern string) string {
+	t, ok := verifRuleText(r, pattern)
+	if !ok {
+		panic(verifSkip{"rule is not the image of a rule text"})
+	}
+	return t
+}
+
+// VerifAlwaysApplies: the rule carries nothing that depends on the request besides its pattern.
+func VerifAlwaysApplies(r *NetworkRule) bool {
+	return r.enabledOptions&(OptionThirdParty|OptionMatchCase) == 0 && r.disabledOptions == 0 &&
+		r.permittedRequestTypes == 0 && r.restrictedRequestTypes == 0 && len(r.permittedDomains) == 0 && len(r.restrictedDomains) == 0
+}
